@@ -8,6 +8,11 @@ HOOK_COMMITS = ["204cfe3", "2edc694", "e1d8638"]
 
 # id -> (category, technique, level text, level note, design ref)
 CHECKS = {
+ "C01": ("exploration",
+         "reference-model monitor: after every Batch call of generated histories a fresh Reader of the real writer is compared (Count, match-all with stored fields, lookup of every id) with the abstract index, over a configuration matrix, with merges/persists/segment drops provoked and seeded jitter at every directory, plug-in and event seam",
+         "Histories of 24..50 calls over 7 ids (updates, inserts of existing ids, updates carrying another id, deletes, empty and delete-only batches, documents of all field kinds) run on {file system, memory} x {ice v1, v2} x {safe, unsafe} with merge-happy options; the reader taken after each call and after background work settled must equal the abstract index exactly. Layouts and merges actually seen are measured through the hooks. Held on the histories and schedules observed.",
+         "Trusts: the abstract index (a 15-line Apply), CanonStored decoding of stored fields with the public decoders. Single issuer.",
+         "DESIGN.md §4 C01"),
  "C18": ("exploration",
          "hostile-input monitoring of every bundled analyzer, tokenizer, token filter configuration and char filter in child processes (panic capture, progress watchdog) with token-stream oracles (determinism, position increments, offset ranges, tokenizer slice equality) and an index/search round trip",
          "Script-aware and byte-level generators feed all 24 analyzers, 8 tokenizers, ~75 filter configurations (fed synthetic token streams directly, including invalid UTF-8, empty and one-rune tokens) and 5 char filters; every output is checked for the stated token invariants, two runs must agree, and every fourth tokenised text is indexed and must be found by a match query requiring all of its own terms. Held on the inputs explored.",
